@@ -259,4 +259,76 @@ class Parser(Sub):
         return Result(viol, len(want) >= 2, [])
 
 
-SUBCHECKS = [SmallScope(), LongRuns(), Parser()]
+class WebConcurrent(Sub):
+    """the limiter as the connection handler uses it: several connections under one rule, messages in flight at once"""
+
+    name = "web-concurrent"
+    examples = {"quick": 120, "thorough": 960}
+    shards = {"quick": 6, "thorough": 12}
+    rule = ("k = 2..6 connections from one address (or several, under a global rule) with a shared RateLimiter 'n/h' send one "
+            "EVENT or REQ each while the handling of the earlier ones is still in flight (validation jobs wait for a worker "
+            "thread / LMDB query jobs are held back), then everything is let go; oracle: at most n of the k messages are "
+            "admitted (the others are answered rate-limited); non-trivial = k > n")
+
+    def strategy(self, tier):
+        return st.tuples(st.sampled_from(["kv", "sql"]), st.integers(2, 6), st.integers(1, 3), st.sampled_from(["ip", "global"]),
+                         st.sampled_from(["EVENT", "EVENT", "REQ"]), st.booleans()).map(list)
+
+    def run_case(self, case):
+        return H.run(self._run, case)
+
+    async def _run(self, case):
+        import asyncio
+        import json
+
+        from nostr_relay.rate_limiter import RateLimiter
+        from vlib import events as E
+
+        backend, k, n, scope, cmd, in_flight = case
+        viol = []
+        async with H.Rig(backend, file_db=True if backend == "sql" else None) as rig:
+            rl = RateLimiter({scope: {cmd: "%d/h" % n}})
+            conns = [rig.conn("10.0.0.1" if scope == "ip" else "10.0.0.%d" % (i + 1), rate_limiter=rl) for i in range(k)]
+            await rig.settle()
+            vexec = asyncio.get_running_loop().inline_executor
+            pool = rig.storage.query_pool if backend == "kv" else None
+            if in_flight:
+                vexec.park = True
+                if pool is not None:
+                    pool.park = True
+                else:
+                    await rig.hold_query_slots()
+            for i, c in enumerate(conns):
+                if cmd == "EVENT":
+                    c.feed(["EVENT", E.make(i % 3, 1, E.T0 + i, [], "m%d" % i)], 0)
+                else:
+                    c.feed(["REQ", "s", {"kinds": [1]}], 0)
+                for _ in range(4):
+                    await asyncio.sleep(0)
+            vexec.park = False
+            vexec.release_all()
+            if pool is not None:
+                pool.park = False
+                pool.release_all()
+            rig.release_query_slots()
+            await rig.settle()
+            admitted = 0
+            for c in conns:
+                fr = c.frames()
+                limited = any((f[0] == "OK" and "rate-limited" in str(f[3])) or (f[0] == "NOTICE" and "rate-limited" in str(f[1])) for f in fr)
+                if not limited:
+                    admitted += 1
+            if admitted > n:
+                viol.append(V("window-exceeded:web:%s" % scope, "no window holds more than n admitted messages",
+                              admitted=admitted, n=n, connections=k, command=cmd, in_flight=in_flight))
+            if admitted < min(n, k):
+                viol.append(V("overblock:web:%s" % scope, "a refusal needs a rule that already passed n messages",
+                              admitted=admitted, n=n, connections=k, command=cmd))
+            for c in conns:
+                if not c.task.done():
+                    c.feed(None)
+            await rig.settle()
+        return Result(viol, k > n, ["backend:" + backend, "scope:" + scope, "cmd:" + cmd, "in-flight" if in_flight else "one-by-one"])
+
+
+SUBCHECKS = [SmallScope(), LongRuns(), Parser(), WebConcurrent()]
